@@ -437,6 +437,9 @@ def run(ctx: Context, rep) -> None:
                        construct=short(item),
                        message="a field excluded from serialisation is lost "
                        "on reopen")
+    from sa.rules import shared
+    shared.check_expanduser_guarded(ctx, rep, "C20.expanduser")
+
 
 
 _U = "src/sedpack/io/utils.py"
